@@ -1502,7 +1502,22 @@ def _sub(fr, a, b):
 @lib('torch.where', 'numpy.where')
 def _where(fr, c, a=None, b=None):
     if a is None:
-        raise Unsupported("where with one argument")
+        # numpy.where(cond) on a vector: the ascending indices of the true entries (assumed relation: how many
+        # there are and which is the first)
+        cs = as_tn(fr, c)
+        if cs.rank != 1:
+            raise Unsupported("where with one argument on a tensor of rank %d" % cs.rank)
+        N = cs.shape[0]
+        csn = cs.snapshot()
+        n = O.fresh_int('n_true')
+        first = O.fresh_int('first_true')
+        ctx = fr.ctx
+        ctx.assume(And(0 <= n, n <= N))
+        ctx.assume(O.Iff(n > 0, O.exists_box([N], lambda j: csn(j))))
+        ctx.assume(Implies(n > 0, And(0 <= first, first < N, csn(first))))
+        ctx.assume(O.forall_hyp([N], lambda j: Implies(And(n > 0, j < first), Not(csn(j)))))
+        ctx.trusted.add('axiom: numpy.where(cond)[0] lists the indices of the true entries in ascending order')
+        return (Opaque('nonzero', 'index_list', {'n': n, 'first': first, 'types': ['numpy.ndarray']}),)
     t = elementwise(fr, lambda x, y: (x, y), a, b)
     cs = as_tn(fr, c)
     s = t.snapshot()
@@ -1513,6 +1528,20 @@ def _where(fr, c, a=None, b=None):
         x, y = s(*bidx(idx, pb, mb))
         return ite(csn(*bidx(idx, pa, ma)), x, y)
     return Tn.fresh(shape, content, result_kind(a, b), lib=t.lib)
+
+
+@lib('len:index_list')
+def _len_index_list(fr, x):
+    return x.attrs['n']
+
+
+@lib('getitem:index_list')
+def _getitem_index_list(fr, x, key):
+    k = O.simp(unwrap_scalar(key) if not isinstance(key, (int, slice)) else key)
+    if isinstance(k, int) and k == 0:
+        fr.ctx.may_raise(x.attrs['n'] <= 0, 'IndexError')
+        return x.attrs['first']
+    raise Unsupported("only the first element of numpy.where(cond)[0] is modelled")
 
 
 # ------------------------------------------------------------------ builtins
